@@ -18,6 +18,7 @@ import (
 	"time"
 
 	ssi "github.com/nuts-foundation/go-did"
+	"github.com/nuts-foundation/go-did/did"
 	"github.com/nuts-foundation/go-did/vc"
 	"github.com/nuts-foundation/nuts-node/core"
 	"github.com/nuts-foundation/nuts-node/discovery"
@@ -70,14 +71,29 @@ type fakeVCR struct {
 
 func (f *fakeVCR) Verifier() verifier.Verifier { return f.v }
 
-func newRealVerifier(t testing.TB, db *gorm.DB, dir string) *seamVerifier {
+// flakyResolver is the DID resolver of a node; while `down` it fails like an unreachable did:web host or a resolver
+// backend that is temporarily unavailable would (interface seam resolver.DIDResolver).
+type flakyResolver struct {
+	inner resolver.DIDResolver
+	down  atomic.Bool
+}
+
+func (f *flakyResolver) Resolve(id did.DID, metadata *resolver.ResolveMetadata) (*did.Document, *resolver.DocumentMetadata, error) {
+	if f.down.Load() {
+		return nil, nil, errors.New("verif: DID resolution temporarily unavailable")
+	}
+	return f.inner.Resolve(id, metadata)
+}
+
+func newRealVerifier(t testing.TB, db *gorm.DB, dir string) (*seamVerifier, *flakyResolver) {
 	router := &resolver.DIDResolverRouter{}
 	router.Register(didjwk.MethodName, didjwk.NewResolver())
 	router.Register(didkey.MethodName, didkey.NewResolver())
-	keyResolver := resolver.DIDKeyResolver{Resolver: router}
+	flaky := &flakyResolver{inner: router}
+	keyResolver := resolver.DIDKeyResolver{Resolver: flaky}
 	status := revocation.NewStatusList2021(db, nil, "https://verif.example")
-	v := verifier.NewVerifier(noRevocations{}, router, keyResolver, jsonld.NewTestJSONLDManager(t), trust.NewConfig(filepath.Join(dir, "trust.yaml")), status)
-	return &seamVerifier{Verifier: v}
+	v := verifier.NewVerifier(noRevocations{}, flaky, keyResolver, jsonld.NewTestJSONLDManager(t), trust.NewConfig(filepath.Join(dir, "trust.yaml")), status)
+	return &seamVerifier{Verifier: v}, flaky
 }
 
 // ---- statement gates (gorm callbacks) --------------------------------------------------------------
@@ -126,6 +142,7 @@ type node struct {
 	db     *gorm.DB
 	gate   *stmtGate
 	vfy    *seamVerifier
+	didres *flakyResolver
 	module *discovery.Module
 }
 
@@ -140,7 +157,7 @@ func newNode(t testing.TB, defDir string, server bool, httpClient discoclient.HT
 	if n.gate, err = installGate(n.db); err != nil {
 		return nil, err
 	}
-	n.vfy = newRealVerifier(t, n.db, t.TempDir())
+	n.vfy, n.didres = newRealVerifier(t, n.db, t.TempDir())
 	if err = n.start(defDir, server, httpClient); err != nil {
 		return nil, err
 	}
@@ -189,6 +206,7 @@ func writeDefinition(dir string, authority string) error {
 		"presentation_definition": map[string]any{
 			"id": "pd_verif_c16",
 			"format": map[string]any{
+				"ldp_vc": map[string]any{"proof_type": []string{"JsonWebSignature2020"}}, // the holder's own credential has no proof
 				"jwt_vc": map[string]any{"alg": []string{"ES256"}},
 				"jwt_vp": map[string]any{"alg": []string{"ES256"}},
 			},
@@ -197,6 +215,12 @@ func writeDefinition(dir string, authority string) error {
 				"constraints": map[string]any{"fields": []any{
 					map[string]any{"path": []string{"$.type"}, "filter": map[string]any{"type": "string", "const": credentialType}},
 					map[string]any{"path": []string{"$.issuer"}, "filter": map[string]any{"type": "string", "const": authority}},
+				}},
+			}, map[string]any{
+				"id": "id_registration",
+				"constraints": map[string]any{"fields": []any{
+					map[string]any{"path": []string{"$.type"}, "filter": map[string]any{"type": "string", "const": registrationCredType}},
+					map[string]any{"id": "auth_server_url", "path": []string{"$.credentialSubject.authServerURL"}, "filter": map[string]any{"type": "string"}},
 				}},
 			}},
 		},
